@@ -11,6 +11,7 @@ func TestMaskPos(t *testing.T) {
 		{"from:        inner  7  \nnext 12", "from:        inner N\nnext 12"},
 		{"t3 16\nvalue at: 12", "t3 16\nvalue at: 12"},
 		{"t21 caught at defer main:181(line 185), division by zero", "t21 caught at defer main:N(line N), division by zero"},
+		{"t9 caught at defer <anon>:183(line 118), invalid array: 3", "t9 caught at defer <anon>:N(line N), invalid array: 3"},
 		{"error in defer h3:7", "error in defer h3:N"},
 		{"ratio x:12 y:3", "ratio x:12 y:3"},
 	} {
